@@ -17,7 +17,11 @@ Package md extracts code sections of markdown files
 */
 package md
 
-import "os"
+import (
+	"fmt"
+	"os"
+	"unicode/utf8"
+)
 
 /*
 GetSource returns code sections enclosed in triple backticks.
@@ -26,6 +30,10 @@ func GetSource(mdfile string) (string, error) {
 	inbuf, err := os.ReadFile(mdfile)
 	if err != nil {
 		return "", err
+	}
+	if !utf8.Valid(inbuf) {
+		// the conversion to runes below would turn every bad byte into a well-formed U+FFFD
+		return "", fmt.Errorf("%s: illegal UTF-8 encoding", mdfile)
 	}
 	input := []rune(string(inbuf))
 	loadMd(input)
